@@ -253,10 +253,13 @@ func (z *ZodRecord[T, R]) PrefaultFunc(fn func() T) *ZodRecord[T, R] {
 	return z.withInternals(in)
 }
 
-// Meta stores metadata for this record schema.
+// Meta returns a new schema with the given metadata stored in the global
+// registry; the receiver and its registry entry are unchanged.
 func (z *ZodRecord[T, R]) Meta(meta core.GlobalMeta) *ZodRecord[T, R] {
-	core.GlobalRegistry.Add(z, meta)
-	return z
+	newInternals := z.internals.Clone()
+	clone := z.withInternals(newInternals)
+	core.GlobalRegistry.Add(clone, meta)
+	return clone
 }
 
 // Describe registers a description in the global registry.
